@@ -28,8 +28,9 @@ def finish(pid, results, replays, inconclusive_msgs, infra_msgs=()):
                 what = rep[2]
                 hit = [k for k in known if k.get("match") and k["match"] in what]
                 if hit:
-                    print(f"KNOWN-FINDING: property={pid} {hit[0]['what']}")
-                    reported_known.append(hit[0]["what"])
+                    if hit[0]["what"] not in reported_known:
+                        print(f"KNOWN-FINDING: property={pid} {hit[0]['what']}")
+                        reported_known.append(hit[0]["what"])
                 else:
                     print(f"VIOLATION property={pid} replay={rep[1]}")
                     print(f"  failing query: {r.name}")
